@@ -104,7 +104,7 @@ def logstrain_independent(F):
     return e.T.reshape(3, *shape), np.moveaxis(E, 0, -1).reshape(3, 3, *shape)
 
 
-def real_job(out, tout, name, make, ramp, fail=False, custom=False):
+def real_job(out, tout, name, make, ramp, fail=False, custom=False, pdd=True, cdd=True):
     rid = "frames-" + name
     if not (out.want(rid) or tout.want(rid)):
         return
@@ -133,6 +133,8 @@ def real_job(out, tout, name, make, ramp, fail=False, custom=False):
     if custom:
         kw["point_data"] = {"my point data": lambda field, substep: field[0].values[:, :1] * 2.0}
         kw["cell_data"] = {"my cell data": lambda field, substep: [field.extract()[0][0, 0].mean(0)]}
+    kw["point_data_default"] = pdd
+    kw["cell_data_default"] = cdd
     tracer.begin(rid)
     try:
         fem.Job(steps=[step], callback=cb).evaluate(filename=fn, verbose=0, maxiter=4 if fail else 12, **kw)
@@ -141,8 +143,16 @@ def real_job(out, tout, name, make, ramp, fail=False, custom=False):
     tracer.end()
     tout.flush()
     times, us, cds, pds = read_frames(fn)
-    keys = ["Deformation Gradient", "Principal Values of Logarithmic Strain", "Logarithmic Strain"] + (["my cell data"] if custom else [])
+    defaults = ["Deformation Gradient", "Principal Values of Logarithmic Strain", "Logarithmic Strain"]
+    keys = (defaults if cdd else []) + (["my cell data"] if custom else [])
+    expectpd = (["Displacement"] if pdd else []) + (["my point data"] if custom else [])
+    if not pdd:
+        us = [np.zeros(0) for _ in times]
+        cbu = [[] for _ in cbu]
+    if not cdd:
+        cbcd = [{k: v for k, v in c.items() if k not in defaults} for c in cbcd]
     out.write({"id": rid, "kind": "frames", "nt": True, "expect": -1, "times": times, "tol": 8, "keys": keys,
+               "cdkeys": [sorted(cd.keys()) for cd in cds], "pdkeys": [sorted(pd.keys()) for pd in pds], "expectcd": keys, "expectpd": expectpd,
                "fileu": [fhex(u) for u in us], "cbu": cbu,
                "filecd": [{k: q(np.asarray(v[0]), S) for k, v in cd.items()} for cd in cds], "cbcd": cbcd,
                "filepd": [{k: fhex(v) for k, v in pd.items() if k != "Displacement"} for pd in pds], "cbpd": cbpd})
@@ -164,7 +174,8 @@ def replay_frames(out, tout, n, line, maxiter):
     ns, ux = int(head[1]), head[2] == "T"
     oracle = sl.Oracle([t for t in script[1:] if t in ("conv", "cont", "nan")])
     field = sl.small_field(2)
-    a, b = sl.StateItem(field), sl.ScriptedItem(field, oracle)
+    ifield = sl.small_field(2) if ux else field      # x0 is a separate top-level container, the items keep their own
+    a, b = sl.StateItem(ifield), sl.ScriptedItem(ifield, oracle)
     bounds = {"fix": fem.Boundary(field[0], fx=0)}
     nsubs = [int(t.split(":")[1]) for t in script[1:] if t.startswith("step:")]
     nsubs += [1] * (ns - len(nsubs))
@@ -187,6 +198,7 @@ def replay_frames(out, tout, n, line, maxiter):
     tout.flush()
     times, us, cds, pds = read_frames(fn)
     out.write({"id": rid, "kind": "frames", "nt": int(parts[2]) > 0, "expect": int(parts[2]), "times": times, "tol": 8, "keys": [],
+               "cdkeys": [[] for _ in times], "pdkeys": [["Displacement"] for _ in times], "expectcd": [], "expectpd": ["Displacement"],
                "fileu": [fhex(u) for u in us], "cbu": cbu, "filecd": [], "cbcd": [], "filepd": [], "cbpd": []})
     for f in os.listdir("."):
         if f.startswith("job_"):
@@ -247,6 +259,8 @@ def main():
     real_job(out, tout, "hex-custom-data", hexjob(), [0.1, 0.25], custom=True)
     real_job(out, tout, "hex-cyclic", hexjob(umat=fem.OgdenRoxburgh(fem.NeoHooke(mu=1, bulk=5), r=3, m=1, beta=0)), [0.3, 0.1, 0.2, 0.0])
     real_job(out, tout, "quad-planestrain", quadjob, [0.1, 0.2])
+    for pdd, cdd in ((True, False), (False, True), (False, False)):
+        real_job(out, tout, "hex-flags-p%d-c%d" % (pdd, cdd), hexjob(), [0.1, 0.2], custom=True, pdd=pdd, cdd=cdd)
     if a.tier == "thorough":
         real_job(out, tout, "hex-n4-6", hexjob(4), [0.05, 0.1, 0.15, 0.2, 0.25, 0.3])
     bf = opts.get("behaviours")
